@@ -334,6 +334,9 @@ type DictAVP struct {
 	Type   string   `json:"type"`
 	Must   string   `json:"must,omitempty"`
 	Rules  []string `json:"rules,omitempty"`
+	// Items: that many <item code=.. name=../> elements inside <data> (documentation of the
+	// values an AVP of any type may take; they do not change its type).
+	Items int `json:"items,omitempty"`
 }
 
 // DictCmd is one command definition.
@@ -399,6 +402,9 @@ func (f DictFile) XML() string {
 			for _, r := range d.Rules {
 				fmt.Fprintf(&b, "<rule avp=\"%s\" required=\"false\"/>", r)
 			}
+			for k := 0; k < d.Items; k++ {
+				fmt.Fprintf(&b, "<item code=\"%d\" name=\"Item-%d\"/>", k, k)
+			}
 			b.WriteString("</data>\n  </avp>\n")
 		}
 		b.WriteString(" </application>\n")
@@ -423,7 +429,11 @@ func CodecDict(t *rapid.T) DictFile {
 	base := DictApp{ID: 0, Name: "Base"}
 	code := uint32(1)
 	for _, typ := range AllTypeNames {
-		base.AVPs = append(base.AVPs, DictAVP{Name: "B-" + typ, Code: 100 + code, Type: typ, Must: pickMust(t)})
+		d := DictAVP{Name: "B-" + typ, Code: 100 + code, Type: typ, Must: pickMust(t)}
+		if typ != TGrouped && rapid.IntRange(0, 3).Draw(t, "items") == 0 {
+			d.Items = rapid.IntRange(1, 3).Draw(t, "n-items") // named values listed for an AVP of any type
+		}
+		base.AVPs = append(base.AVPs, d)
 		code++
 	}
 	base.AVPs = append(base.AVPs, DictAVP{Name: "B-Group2", Code: 150, Type: TGrouped})
